@@ -24,16 +24,35 @@ configuration `Cfg.preFix` — they say nothing about the current code.  The har
 configuration from the source of `_async_ref` on every run and replays the witness schedules
 (corpus/C10) on the real code, where they now have to satisfy the oracle.
 
-Scope of the theorems: schedules of assignments, ticks and completions.  The driver replays a
-larger model (Async/ModelExt.lean: a watcher that assigns a plain value to another parameter while
-a result is being written; references with a dependency re-evaluated through `_sync_refs` when their
-source changes); on schedules without those two features it is the model of the theorems, state by
-state (`driver_model_is_core_model`).  The two extensions are tied to the code by the
-correspondence run and judged by the oracle (Async/SpecExt.lean) only — no theorem covers them.
+Scope of the theorems: schedules of assignments, ticks and completions (`tick_drains`: the
+`ready = []` hypothesis of the quiescence theorems is what every `tick` produces).  The driver
+replays a larger model (Async/ModelExt.lean); on schedules without its extensions it is the model
+of the theorems, state by state (`driver_model_is_core_model`).  Of the extensions,
+  * the WATCHER HOOK (a watcher on `a` assigning a plain value to `b ≠ a`, also from inside a task's
+    result write) is covered by `hook_plain_assignment_cancels_for_good`, `hook_latest_wins` and
+    `hook_syncing_empty_when_quiescent` (Async/HookLemmas.lean); the per-write statement
+    ("superseded never applied") is NOT lifted for it;
+  * references WITH A DEPENDENCY re-evaluated through `_sync_refs` when their source changes, and
+    results the parameter's validation REJECTS (the write raises inside the task), are tied to the
+    code by the correspondence run and judged by the oracle (Async/SpecExt.lean) only — no theorem.
+
+Not modelled at all (fidelity limits, also in the harness ASSUMPTIONS):
+  * reference identity: every assignment installs a FRESH reference (named by the id of its first
+    task), as the harness does (a new function object per assignment); Python's still-current check
+    is object identity (`refs.get(pname) is not ref`), so assigning the SAME function object twice
+    lets the first, not yet started task pass the check — outside the model;
+  * constructor-time references (`initialized=False`: `_async_ref` re-scheduling itself,
+    `_resolve_ref` not installing the link): the object is initialised before the first event;
+  * awaitables that raise (`Skip` included), `set_exception` / cancellation of the hand-made future
+    by the user; `_update_ref`'s re-installation of the ref watchers (only its effect on `refs` /
+    `async_refs` is modelled); sync generator functions (thread pool); other event loops;
+  * rx: one `.rx.pipe(async def)` node with a `.rx.watch` callback (every input change is evaluated
+    at once); async generators through a pipe are not modelled.
 -/
 import ParamVerif.Async.LemmasGhost
 import ParamVerif.Async.RxLemmas
 import ParamVerif.Async.ExtLemmas
+import ParamVerif.Async.HookLemmas
 
 namespace ParamVerif.Async
 
@@ -120,6 +139,20 @@ theorem plain_assignment_cancels_for_good : PlainCancelsForGood Cfg.repo (fun _ 
 theorem syncing_empty_when_quiescent : SyncingEmptyWhenQuiescent Cfg.repo (fun _ => True) :=
   fun evs _ => syncing_empty_when_quiescent_hazard_free Cfg.repo evs (hazardFree_repo evs)
 
+/-- **The `ready = []` hypothesis of the two quiescence theorems is what a `tick` produces**: the fuel
+of `drain` (`tickFuel` = queue length + number of tasks + 1) always suffices, because under the
+invariant a step removes the head of the queue and appends nothing.  So after every `tick` of every
+schedule the queue is empty — the theorems are not vacuous after ticks. -/
+theorem tick_drains (evs : List Event) : (run Cfg.repo (evs ++ [.tick])).ready = [] := by
+  rw [run_append]
+  exact tick_empties _ _ (inv_run _ evs (hazardFree_repo evs))
+
+/-- … in any configuration, on schedules that meet no hazard -/
+theorem tick_drains_hazard_free (c : Cfg) (evs : List Event) (hz : HazardFree c evs) :
+    (run c (evs ++ [.tick])).ready = [] := by
+  rw [run_append]
+  exact tick_empties _ _ (inv_run _ evs hz)
+
 theorem C10_full_holds : C10_full :=
   ⟨latest_wins, superseded_never_applied_after_newer, plain_assignment_cancels_for_good, syncing_empty_when_quiescent⟩
 
@@ -129,25 +162,80 @@ oracle uses) -/
 theorem last_is_most_recent_assignment (c : Cfg) (p : Nat) (evs : List Event) :
     (run c evs).last p = lastOf p evs := last_eq_lastOf c p evs
 
-/-- what the driver replays for a case without a hook and without source changes is the model of
+/-- what the driver replays for a case without a hook, without rejected results and without source changes is the model of
 the theorems above -/
 theorem driver_model_is_core_model (c : Cfg) (evs : List Event) :
-    (runH c none (evs.map Event.lift)).core = run c evs := runH_eq_run c evs
+    (runH c Env.plain (evs.map Event.lift)).core = run c evs := runH_eq_run c evs
+
+/-! ### a plain assignment made by a watcher WHILE a result is being written
+
+`runH Cfg.repo (Env.hooked a b w)`: a watcher on `a` assigns the plain value `w` to `b ≠ a` on every
+write of `a` — by the driver, or by a task's `self_.update({a: result})` while the `_syncing((a,))`
+scope is open (the interleaving point no driver-level assignment can reach).  Every schedule of
+assignments, ticks and completions. -/
+
+/-- the hook's assignment (ghost: `last b = plain w` from the moment it fires) and every other plain
+assignment cancel the overridden reference for good -/
+theorem hook_plain_assignment_cancels_for_good (a b : Nat) (w : Int) (hab : a ≠ b) (evs : List Event) (p : Nat) (v : Int)
+    (hl : (runH Cfg.repo (Env.hooked a b w) (evs.map Event.lift)).core.last p = .plain v) :
+    (runH Cfg.repo (Env.hooked a b w) (evs.map Event.lift)).core.vals p = v ∧
+    (runH Cfg.repo (Env.hooked a b w) (evs.map Event.lift)).core.refs p = none ∧
+    (runH Cfg.repo (Env.hooked a b w) (evs.map Event.lift)).core.asyncRefs p = none :=
+  inv_plain Cfg.repo _ (inv_runH Cfg.repo rfl rfl a b w hab evs) p v hl
+
+theorem hook_latest_wins (a b : Nat) (w : Int) (hab : a ≠ b) (evs : List Event) (p t : Nat) (x : Task)
+    (hq : (runH Cfg.repo (Env.hooked a b w) (evs.map Event.lift)).core.ready = [])
+    (hl : (runH Cfg.repo (Env.hooked a b w) (evs.map Event.lift)).core.last p = .task t)
+    (ht : (runH Cfg.repo (Env.hooked a b w) (evs.map Event.lift)).core.tasks t = some x)
+    (hs : settled (runH Cfg.repo (Env.hooked a b w) (evs.map Event.lift)).core t x.kind = true) (hn : 0 < x.kind.nFuts) :
+    (runH Cfg.repo (Env.hooked a b w) (evs.map Event.lift)).core.futs (t, x.kind.nFuts - 1) =
+      .done ((runH Cfg.repo (Env.hooked a b w) (evs.map Event.lift)).core.vals p) :=
+  inv_latest_wins Cfg.repo _ (inv_runH Cfg.repo rfl rfl a b w hab evs) hq p t x hl ht hs hn
+
+theorem hook_syncing_empty_when_quiescent (a b : Nat) (w : Int) (hab : a ≠ b) (evs : List Event)
+    (hq : (runH Cfg.repo (Env.hooked a b w) (evs.map Event.lift)).core.ready = [])
+    (ha : allSettled (runH Cfg.repo (Env.hooked a b w) (evs.map Event.lift)).core = true) :
+    (runH Cfg.repo (Env.hooked a b w) (evs.map Event.lift)).core.syncing = [] ∧
+    ∀ p, (runH Cfg.repo (Env.hooked a b w) (evs.map Event.lift)).core.asyncRefs p = none :=
+  inv_quiescent Cfg.repo _ (inv_runH Cfg.repo rfl rfl a b w hab evs) hq ha
+
+/-- the hook fires inside task 0's write of parameter 0 and cancels the pending task of parameter 1:
+its later result 20 is never applied -/
+example :
+    (runH Cfg.repo (Env.hooked 0 1 500) ([.assign 0 .coro, .assign 1 .coro, .tick, .complete 0 0 10, .tick,
+        .complete 1 0 20, .tick].map Event.lift)).core.last 1 = .plain 500 ∧
+    (runH Cfg.repo (Env.hooked 0 1 500) ([.assign 0 .coro, .assign 1 .coro, .tick, .complete 0 0 10, .tick,
+        .complete 1 0 20, .tick].map Event.lift)).core.log = [(0, 10), (1, 500)] ∧
+    (runH Cfg.repo (Env.hooked 0 1 500) ([.assign 0 .coro, .assign 1 .coro, .tick, .complete 0 0 10, .tick,
+        .complete 1 0 20, .tick].map Event.lift)).core.vals 1 = 500 := by decide
 
 /-! ### expression pipelines (`r.rx.pipe(coroutine function)`, Async/Rx.lean) -/
 
 /-- **C10 (latest wins for an expression that pipes through a coroutine)**: for every schedule of
-input changes, ticks and completions — in every order —, once the loop is idle and every evaluation
-requested so far has completed, the expression holds the result of the most recent evaluation
-(number `nTasks - 1`: evaluations are numbered in the order they were requested). -/
-theorem rx_latest_wins (evs : List Rx.Event) (hq : (Rx.run evs).ready = [])
-    (hd : Rx.allDone (Rx.run evs) = true) :
-    ∃ v, (Rx.run evs).futs ((Rx.run evs).nTasks - 1) = .done v ∧ (Rx.run evs).cur = some v := by
+input changes, ticks and completions — in every order —, once the loop is idle and the MOST RECENT
+evaluation (number `nTasks - 1`: evaluations are numbered in the order they were requested) has
+completed with `v`, the expression holds `v` — whether or not older evaluations are still pending. -/
+theorem rx_latest_wins (evs : List Rx.Event) (hq : (Rx.run evs).ready = []) (v : Int)
+    (hd : (Rx.run evs).futs ((Rx.run evs).nTasks - 1) = .done v) : (Rx.run evs).cur = some v := by
   obtain ⟨m, h⟩ := Rx.rinv_run evs
-  have := Rx.rinv_latest_wins _ m h hq hd
-  cases hc : (Rx.run evs).cur with
-  | none => exact absurd hc this.2
-  | some v => exact ⟨v, by simpa [hc] using this.1, rfl⟩
+  exact (Rx.rinv_latest_wins _ m h hq v hd).1
+
+/-- what the expression holds is the completed result of the evaluation `holder` (ghost: set where
+`_resolve_async` stores, never read) … -/
+theorem rx_holds_result_of_holder (evs : List Rx.Event) :
+    (∀ t, (Rx.run evs).holder = some t → ∃ v, (Rx.run evs).futs t = .done v ∧ (Rx.run evs).cur = some v) ∧
+    ((Rx.run evs).holder = none → (Rx.run evs).cur = none) := by
+  obtain ⟨m, h⟩ := Rx.rinv_run evs
+  exact ⟨fun t ht => (h.held t ht).2, h.unheld⟩
+
+/-- … and **a superseded result is never applied after a newer one**: over any event of any
+schedule the evaluation whose result is held never goes back to an older one. -/
+theorem rx_superseded_never_applied_after_newer (evs : List Rx.Event) (ev : Rx.Event) :
+    Rx.HLe (Rx.run evs).holder (Rx.run (evs ++ [ev])).holder := by
+  obtain ⟨m, h⟩ := Rx.rinv_run evs
+  have : Rx.run (evs ++ [ev]) = Rx.applyEvent (Rx.run evs) ev := by simp [Rx.run, List.foldl_append]
+  rw [this]
+  exact Rx.holder_applyEvent _ m ev h
 
 /-! ### non-vacuity: the hypotheses are met by the hard schedules, and the conclusions are not trivial -/
 
@@ -188,7 +276,9 @@ example : (run Cfg.repo calmSchedule).ready = [] ∧ (run Cfg.repo calmSchedule)
 /-- rx: the older evaluation completes last, its result is dropped -/
 example : (Rx.run [.set 20, .tick, .complete 1 20, .tick, .complete 0 10, .tick]).cur = some 20 ∧
     (Rx.run [.set 20, .tick, .complete 1 20, .tick, .complete 0 10, .tick]).ready = [] ∧
-    Rx.allDone (Rx.run [.set 20, .tick, .complete 1 20, .tick, .complete 0 10, .tick]) = true := by decide
+    (Rx.run [.set 20, .tick, .complete 1 20, .tick]).futs 0 = .pending (some 0) ∧
+    (Rx.run [.set 20, .tick, .complete 1 20, .tick]).cur = some 20 ∧
+    (Rx.run [.set 20, .tick, .complete 1 20, .tick, .complete 0 10, .tick]).holder = some 1 := by decide
 
 /-! ### REGRESSION: the configuration before commits 08165dc / 0c5ea5c (`Cfg.preFix`)
 
